@@ -161,6 +161,7 @@ void run_small(vf::Ctx &c) {
     last[r] = recs.size();
     check_collection(c, got, scope, ever, L, cumulative, first, true, hist);
     ncollects[r]++;
+    c.trace("after Collect: interval table limit %zu size %zu", storage.attributes_hashmap_->attributes_limit_, storage.attributes_hashmap_->Size());
     c.state(vf::sfmt("L%zu|c%zu|%zu|", L, ct.size(), r) + show_points(got, true) + vf::sfmt("|t%zu", storage.attributes_hashmap_->Size()));
     return got.size();
   };
